@@ -7,7 +7,7 @@ From ReqV Require Import Model.H2Frame Proofs.H2FrameProofs Proofs.H2OrderProofs
 From ReqV Require Import Model.H2Meta Proofs.H2MetaProofs.
 From ReqV Require Import Model.H3Frame Model.H3Spec Proofs.H3FrameProofs Proofs.H3FieldProofs.
 From ReqV Require Import Model.H3Writer Proofs.H3WriterProofs Model.H2EncConn Proofs.H2EncConnProofs.
-From ReqV Require Import Model.H2ConnThreads Proofs.H2ConnThreadsProofs.
+From ReqV Require Import Model.H2ConnThreads Proofs.H2ConnThreadsProofs Model.H3RespConn Proofs.H3RespConnProofs.
 From Coq Require Import Permutation.
 Open Scope N_scope.
 
@@ -443,6 +443,24 @@ Theorem C05_h3_writer_seq_fresh_buffer_refuted :
   bw_run (Some 16) bw_init [[x01]; big; [x02]; [x03]] = [wframe [x01]; wframe big; whdr 0; whdr 0].
 Proof. exact writer_seq_fresh_buffer_refuted. Qed.
 Print Assumptions C05_h3_writer_seq_fresh_buffer_refuted.
+
+(* the response side of one HTTP/3 connection: ONE qpack decoder for the responses of all requests.
+   A field section that cannot be decoded closes the connection (the decoder is left in mid-section),
+   a malformed one resets only its stream.  For every sequence of responses: what is observed is
+   exactly resp_expected - a well-formed response that is read at all is accepted, whatever was
+   refused before it - and nothing is accepted on a connection that was closed *)
+Theorem C05_h3_resp_good_always_accepted : forall cs,
+  resp_seq true rinit cs = resp_expected cs /\
+  Forall (fun o => snd o = true -> fst o = false) (resp_seq true rinit cs).
+Proof. exact h3_resp_good_always_accepted. Qed.
+Print Assumptions C05_h3_resp_good_always_accepted.
+
+(* resetting only the stream on a QPACK failure: the well-formed response that follows is refused *)
+Theorem C05_h3_resp_keep_connection_refuted :
+  resp_seq false rinit [RGood; RUndecodable; RGood] = [(true, false); (false, false); (false, false)] /\
+  resp_seq true rinit [RGood; RUndecodable; RGood] = [(true, false); (false, true)].
+Proof. exact h3_resp_keep_connection_refuted. Qed.
+Print Assumptions C05_h3_resp_keep_connection_refuted.
 
 (* ---------- received field sections (RFC 9114 §4.2, §4.3; internal/http3/headers.go) ---------- *)
 
